@@ -3,4 +3,4 @@ from . import session
 FAMILIES = [('mix', 1.0), ('clean', 0.3), ('long', 0.02), ('lockstep', 0.15)]
 
 def main(ctx):
-    session.run(ctx, "C01", FAMILIES, quick_count=100, thorough_count=4000, prop_mod=None)
+    session.run(ctx, "C01", FAMILIES, quick_count=100, thorough_count=4000, prop_mod=session.PROP_MODS.get("C01"))
